@@ -2,7 +2,7 @@
 # integrate.sh <scratch verif dir>: copy files that are new in a builder's scratch copy into /verif; show Driver.lean arms to merge
 src=$1
 cd $src || exit 1
-git status --short | grep '^??' | awk '{print $2}' | grep -v '^evidence/\|^replays/\|__pycache__' | while read f; do
+git status --short | grep '^??' | awk '{print $2}' | grep -v "^evidence/\|^replays/\|__pycache__\|^known_findings.json" | while read f; do
   mkdir -p /verif/$(dirname $f); cp -r $src/$f /verif/$(dirname $f)/ ; echo "copied $f"
 done
 echo "--- Driver.lean diff"; git diff lean/Driver.lean | grep '^[+-]' | grep -v '^+++\|^---'
